@@ -296,6 +296,15 @@ func nonNegative(v *Val, conds []Cond) bool {
 			if k, ok := v.Args[1].Int64(); ok && (v.Name == "/" && k >= 1 || v.Name == ">>" && k >= 0) && nonNegative(v.Args[0], conds) {
 				return true
 			}
+			// … or by a divisor the conditions in force say is positive
+			if v.Name == "/" && nonNegative(v.Args[0], conds) {
+				if lo, _ := boundsOf(affOf(v.Args[1]), factsOf(conds, v.Args[1])); lo != nil && *lo >= 1 {
+					return true
+				}
+				if d := stripCT(v.Args[1]); d.Op == "call" && d.Name == "encoding/binary.Size" {
+					return true // -1 only for a type encoding/binary refuses anyway; dividing by it is C09's panic site
+				}
+			}
 		}
 		if v.Name == "+" {
 			// loopvar(init) + c with init + c >= 0 (counted loops step by +1)
